@@ -851,6 +851,10 @@ bool BarnettSmartVTMF_dlog::OR_Verify
 		if (!in.good())
 			throw false;
 
+		// check the size of $c_1$ and $c_2$
+		if ((mpz_cmpabs(c_1, q) >= 0L) || (mpz_cmpabs(c_2, q) >= 0L))
+			throw false;
+
 		// check the size of $r_1$ and $r_2$
 		if ((mpz_cmpabs(r_1, q) >= 0L) || (mpz_cmpabs(r_2, q) >= 0L))
 			throw false;
